@@ -203,6 +203,27 @@ def run(ctx):
                 'inputs (accept => re-encode/re-decode stable); distinct by (type shape to depth 2, encoded length); '
                 'non-trivial = every case (each is a compiled-code execution compared with the Python codec)')
     ctx.level = 'proof'
+    ctx.trusted_base += [
+        'translator/cparse.py (fail-closed parser of the generated C dialect, reads the helper C text out of uper_functions.py via ast) '
+        'and translator/ctoir.py (C integer typing for LP64 made explicit in the IR)',
+        'CGen/Ir.v: big-step semantics of the dialect (value trees, copy-in/copy-out pointer parameters) - my reading of C99, '
+        'validated against gcc/clang binaries on return codes and outputs',
+        'gcc -std=c99 and clang 14 with -fsanitize=address,undefined: memory safety / UB of the compiled artefact is explored, not proved',
+        'the Python UPER codec of /repo as the oracle of "equivalent"; struct field naming conventions of the generated header',
+    ]
+    ctx.assumptions += [
+        'LP64 target: int 32 bit, long = size_t = ssize_t 64 bit; conversion to a signed type wraps (gcc/clang)',
+        'helper theorems: cursor live (size = 8 * capacity < 2^62, 0 <= pos <= size) or latched; arguments as the generated code passes them '
+        '(nnbi width <= 64, byte counts <= source capacity, error codes small positive ints)',
+        'no two pointer parameters of one call alias (true for the dialect: cursor, struct, byte buffer are distinct objects)',
+    ]
+    ctx.extra['open_theorems'] = [
+        'validate_sound (validated generated program = codec model for all values and buffer sizes): no validator with a soundness '
+        'proof exists; generated functions are executed as IR terms on sampled values only',
+        'semantic tie of the looping helpers (append_bytes/read_bytes/nnbi) is by vm_compute runs, proved only for the straight-line '
+        'bounds-check helpers (CGen/HelpersIrTie.v)',
+        'fuel monotonicity of the IR interpreter',
+    ]
     try:
         import random
         from concurrent.futures import ThreadPoolExecutor
@@ -211,23 +232,26 @@ def run(ctx):
         parsed = c09_helpers.regenerate(ctx)          # coq/gen/UperHelpers*.v from /repo, before the build
         # The Coq build, the two helper correspondences and the compile-and-run spine are independent:
         # run them side by side (each with its own deterministic random stream).
-        ex = ThreadPoolExecutor(max_workers=3)
+        ex = ThreadPoolExecutor(max_workers=4)
         f_props = ex.submit(ctx.coq_props)
         f_help = ex.submit(c09_helpers.run, ctx, parsed, random.Random(ctx.seed * 7919 + 1)) if parsed is not None else None
         f_hir = ex.submit(c09_ir.helpers_vs_model, ctx, 60 if ctx.quick else 600, random.Random(ctx.seed * 7919 + 2))
+        import c09_logic
+        f_logic = ex.submit(c09_logic.run, ctx, [], random.Random(ctx.seed * 7919 + 3))
         findings = common.load_findings('C09')
         active = run_findings(ctx, findings, ctx.rng)
         ctx.log('known findings replayed: %d of %d still reproduce' % (len(active), len(findings)))
         ctx.extra['regions_excluded'] = active
         A.ACTIVE = set(active)
         if ctx.quick:
-            preps = spine_a(ctx, active, 40, 3, 14)
+            preps = spine_a(ctx, active, 32, 3, 12)
         else:
             preps = spine_a(ctx, active, 420, 6, 60)
         ctx.log('spine A judged')
-        c09_ir.run_units(ctx, preps, 5 if ctx.quick else 80)
+        c09_ir.run_units(ctx, preps, 4 if ctx.quick else 80)
         ctx.log('IR: generated functions vs Python codec and binary done')
-        for f, what in ((f_help, 'helpers: compiled helper block vs Coq model'), (f_hir, 'IR: parsed helper block vs Coq model')):
+        for f, what in ((f_help, 'helpers: compiled helper block vs Coq model'), (f_hir, 'IR: parsed helper block vs Coq model'),
+                        (f_logic, 'logic: type_length / range-check criterion vs Coq model')):
             if f is not None:
                 f.result()
                 ctx.log(what + ' done')
